@@ -12,7 +12,7 @@ abbrev Key := Int × String
 def Proposal.key (p : Proposal) : Key := (p.prio, p.src)
 
 theorem sameKey_iff_key {a b : Proposal} : a.sameKey b ↔ a.key = b.key := by
-  unfold Proposal.sameKey Proposal.key; simp [Prod.ext_iff]
+  unfold Proposal.sameKey Extracted.Proposal.eq Proposal.key; simp [Prod.ext_iff]
 
 /-- Abstraction: the bucket as a map from actor key to proposal. -/
 def absBucket (b : List Proposal) (k : Key) : Option Proposal := b.find? (fun q => decide (q.key = k))
@@ -86,7 +86,7 @@ theorem abs_insert (b : List Proposal) (p : Proposal) (k : Key) :
 
 theorem abs_dropOld {b : List Proposal} (hd : KeysDistinct b) (m now : Rat) (k : Key) :
     absBucket (dropOld m now b) k = (absBucket b k).filter (fun q => decide ¬ (now - q.created > m)) := by
-  unfold absBucket dropOld
+  unfold absBucket dropOld Extracted.Proposal.expired
   induction b with
   | nil => rfl
   | cons x xs ih =>
